@@ -709,6 +709,11 @@ func (cs *Contracts) parseContractText(pkgPath, file string, text string, baseLi
 					}
 					payload := strings.TrimSpace(body[:idx])
 					anch := strings.TrimSpace(strings.TrimPrefix(strings.TrimPrefix(strings.TrimSpace(body[idx:]), "after"), "before"))
+					occ := 0
+					if k := strings.LastIndex(anch, "\" #"); k > 0 {
+						occ, _ = strconv.Atoi(strings.TrimSpace(anch[k+3:]))
+						anch = anch[:k+1]
+					}
 					as, err := strconv.Unquote(anch)
 					if err != nil {
 						errf("bad anchor %s", anch)
@@ -719,7 +724,7 @@ func (cs *Contracts) parseContractText(pkgPath, file string, text string, baseLi
 						errf("%v", err)
 						continue
 					}
-					cur.Clauses = append(cur.Clauses, &Clause{Kind: "assume-at", Tags: tags, Anchor: as, Before: before, Text: payload, Expr: e, Line: it.line})
+					cur.Clauses = append(cur.Clauses, &Clause{Kind: "assume-at", Tags: tags, Anchor: as, Before: before, Occ: occ, Text: payload, Expr: e, Line: it.line})
 					continue
 				}
 				tags, body := parseTags(rest)
